@@ -82,6 +82,31 @@ def shapes(rs: dict) -> list[str]:
     jump_targets = {o["params"][-1] for o in ops if o["name"] == "Jump" and o["params"]}
     if any(o["name"].startswith("Branch") and o["params"] and o["params"][-1] in jump_targets for o in ops):
         out.append("branch_to_shared_join")   # e.g. 'if (c) { break; }' folded into the branch: its target is a join other jumps use
+    # a loop (ops between the target and the source of a backward jump) that is left towards two or more different places:
+    # structured source (while/for/forever with break_loop) leaves a loop at one place only
+    multi = False
+    for r in rs["ops"]:
+        ro = [o["off"] for o in r]
+        for o in r:
+            if o["name"] in dc.JUMPY and o["params"] and isinstance(o["params"][-1], int) and o["params"][-1] <= o["off"] and o["params"][-1] in ro:
+                t, s_ = o["params"][-1], o["off"]
+                exits = set()
+                for q in r:
+                    if t <= q["off"] <= s_ and q["name"] in dc.JUMPY and q["name"] != "Call" and q["params"] and isinstance(q["params"][-1], int):
+                        if q["params"][-1] > s_ or q["params"][-1] not in ro:
+                            exits.add(q["params"][-1])
+                nxt = [x for x in ro if x > s_]
+                if o["name"] != "Jump" and nxt:
+                    exits.add(nxt[0])      # a test as the last op of the loop also leaves it by falling through
+                if len(exits) >= 2:
+                    multi = True
+    if multi:
+        out.append("multi_exit_loop")
+    # a test whose target is the op right behind it (an if with an empty block: both outcomes continue at the same place)
+    for r in rs["ops"]:
+        if any(a["name"].startswith("Branch") and a["params"] and a["params"][-1] == b["off"] for a, b in zip(r, r[1:])):
+            out.append("empty_test")
+            break
     if rs.get("_unreachable"):
         out.append("unreachable_ops")
     if back:
@@ -94,9 +119,22 @@ SWITCH_HEADERS = {"message_SwitchMenu", "message_SwitchMenu2", "ProcessSpecial",
 
 
 def first_kind(rs: dict, stage: str) -> str:
-    """the kind names the input class only; the failing stage goes into the description"""
-    sh = shapes(rs)
-    return f"decompiled_wrong:{sh[0]}" if sh else f"{stage}:unclassified"
+    """the kind names a narrow input class (only used to match known findings); the failing stage goes into the description.
+    After the repairs of build round 2 (see known_findings.jsonl, status fixed) the decompiler is wrong on two classes only;
+    every other failing input is unclassified and therefore a VIOLATION."""
+    sh = set(shapes(rs))
+    cyclic = sh & {"backward_jump", "complex_loop", "empty_body_loop"}
+    if "has_call_op" in sh and cyclic:
+        return "decompiled_wrong:call_in_cyclic_flow"
+    if "routine_starts_with_jump" in sh and "complex_loop" in sh:
+        return "decompiled_wrong:starts_with_jump_into_complex_loop"
+    if "empty_test" in sh and "complex_loop" in sh:
+        return "decompiled_wrong:empty_test_in_complex_loop"
+    if "multi_exit_loop" in sh and "test_falls_into_join" in sh:
+        return "decompiled_wrong:multi_exit_loop"
+    if "has_call_op" in sh and "cross_routine_jump" in sh and "switch_fallthrough" in sh:
+        return "decompiled_wrong:call_cross_routine_and_switch_fallthrough"
+    return f"{stage}:unclassified"
 
 
 def cfgs_for(tier: str) -> list[Cfg]:
@@ -198,8 +236,10 @@ def run(run: core.Run) -> int:
         n_viol = 0
         shape_cnt: Counter = Counter()
         kind_cnt: Counter = Counter()
+        class_cnt: Counter = Counter()
         for s, r, f in zip(sets, results, fails):
             shape_cnt.update(shapes(s["rs"]) or ["plain"])
+            class_cnt[first_kind(s["rs"], "none")] += 1
             if not f:
                 continue
             n_viol += 1
@@ -210,7 +250,7 @@ def run(run: core.Run) -> int:
             if kind.endswith(":unclassified") and sum(1 for v in run.violations) < 3:
                 # shrink the routine set while an unclassified failure of the same stage persists
                 def still(t: dict) -> bool:
-                    if shapes(t):
+                    if not first_kind(t, stage).endswith(":unclassified"):
                         return False
                     rr = dc.pipeline_all(pool, [{"rs": t}], single_timeout=20)
                     ff, _ = evaluate([{"rs": t}], rr, drv, 1)
@@ -227,6 +267,7 @@ def run(run: core.Run) -> int:
         "programs": len(sets), "disagreements_checked": n_viol,
         "samples": [{"rs": s["rs"], "decompiled": r["dec"].get("text")} for s, r in list(zip(sets, results))[:2]],
         "outcomes": dict(cnt), "input_shapes": dict(shape_cnt), "failure_kinds": dict(kind_cnt),
+        "inputs_per_known_finding_class": dict(class_cnt),   # 'none:unclassified' = inputs on which every failure is a VIOLATION
         "evaluations": len(sets), "distinct_nontrivial": core.distinct(s["rs"]["ops"] for s in sets),
         "rule": "routine sets = real compiler output of generated programs (reader-shaped: numeric dungeon modes and flags), filtered to sets without Jump-only cycles; mostly label-free structured control flow (ifs, switches with fall-through, loops, message switches, with-blocks, coroutines), a share with user labels/jump/call incl. cross-routine jumps",
         "obligations": aud["obligations"], "discharged": aud["discharged"] if prep["proofs_ok"] else 0,
